@@ -748,6 +748,8 @@ func (r *PipelineRunner) SaveToStore() {
 			if shouldRemoveJob {
 				delete(r.jobsByID, job.ID)
 				r.jobsByPipeline[job.Pipeline] = removeJobFromList(r.jobsByPipeline[job.Pipeline], job)
+				// A removed job must not stay on the wait list (it could be started later although it is gone)
+				r.waitListByPipeline[job.Pipeline] = removeJobFromWaitList(r.waitListByPipeline[job.Pipeline], job)
 
 				err := r.outputStore.Remove(job.ID.String())
 				if err != nil {
